@@ -1,6 +1,6 @@
 import sys, importlib, json, pkgutil
 sys.path.insert(0, '/verif')
-from h2vc import spec, prove, deps_model, cli
+from h2vc import spec, prove, deps_model, cli, hdrmodel
 cli.load_contracts()
 V = prove.Verifier()
 pat = sys.argv[1] if len(sys.argv) > 1 else ''
